@@ -1117,6 +1117,9 @@ class StdRules:
             if not params: return 'vec_u8_make_empty()'
             p0 = params[0]
             if len(params) == 2 and 'size_type' in p0: return f"vec_u8_make_n({em.e(args[0])})"
+            if len(params) >= 2 and len(args) == 2 and self.T.strip_cv(norm_std(em.ty(args[0]))).rstrip().endswith('*') and self.T.strip_cv(norm_std(em.ty(args[1]))).rstrip().endswith('*'):
+                # vector(first, last) over a byte range
+                em.note_call('vec_u8_make_range'); return f"vec_u8_make_range((const uint8_t *)({em.e(args[0])}), (const uint8_t *)({em.e(args[1])}))"
             if len(params) == 1 and p0.startswith('const std::vector') and p0.endswith('&'): 
                 em.note_call('vec_u8_copy'); return f"vec_u8_copy({em.addr(args[0])})"
             if len(params) == 1 and p0.endswith('&&'):
@@ -1177,6 +1180,9 @@ class StdRules:
                 em.note_call('vec_u8_resize_val'); return f"vec_u8_resize_val({objp}, {em.e(args[0])}, {em.e(args[1])})"
             if name == 'assign' and len(args) == 2 and self.T.c(self.T.strip_cv(self.T.strip_ref(em.ty(args[0])))) in ('size_t', 'uint64_t', 'uint32_t', 'uint16_t', 'uint8_t', 'int', 'int32_t', 'int64_t'):
                 em.note_call('vec_u8_assign_n'); return f"vec_u8_assign_n({objp}, {em.e(args[0])}, {em.e(args[1])})"
+            if name == 'assign' and len(args) == 2 and self.T.strip_cv(norm_std(em.ty(args[0]))).rstrip().endswith('*') and self.T.strip_cv(norm_std(em.ty(args[1]))).rstrip().endswith('*'):
+                # assign(first, last) over a byte range
+                em.note_call('vec_u8_assign_range'); return f"vec_u8_assign_range({objp}, (const uint8_t *)({em.e(args[0])}), (const uint8_t *)({em.e(args[1])}))"
             if name == 'clear':
                 em.note_call('vec_u8_clear'); return f"vec_u8_clear({objp})"
             if name == 'operator=':
@@ -1917,7 +1923,7 @@ def emit_types(gen):
 
 MODELS_INCLUDE = '#include "models.h"'
 MODEL_FUNCTIONS = ['verif_memcpy', 'vec_u8_make_n', 'vec_u8_copy', 'vec_u8_resize', 'vec_u8_resize_val', 'vec_u8_assign_n', 'vec_u8_assign_copy', 'vec_frames_push_back',
-                   'sv_find', 'sv_from_cstr', 'str_from_int', 'map_slot_index', 'map_slot_erase', 'map_slot_find', 'map_slot_erase_it', 'map_it_deref', 'verif_memcmp']
+                   'sv_find', 'sv_from_cstr', 'str_from_int', 'map_slot_index', 'map_slot_erase', 'map_slot_find', 'map_slot_erase_it', 'map_it_deref', 'verif_memcmp', 'vec_u8_assign_range', 'vec_u8_make_range']
 
 def run(ast_dir, spec_paths, excluded_path, out_c, out_map, out_report, layouts_path=None, drop=(), strip_ghost=()):
     ctx = Ctx()
